@@ -26,6 +26,8 @@ type Config struct {
 	Pkgs []string
 	// Extra maps repo-relative file -> replacement content (mutants, added files).
 	Extra map[string]string
+	// Typed: type-check the packages and monitor every access to a field of a galaxy struct type (not only the listed names).
+	Typed bool
 }
 
 const (
@@ -100,6 +102,18 @@ func Generate(cfg Config) (string, *Report, error) {
 	if err := os.MkdirAll(cfg.OutDir, 0o755); err != nil {
 		return "", nil, err
 	}
+	var typed *TypedInfo
+	if cfg.Typed {
+		ti, err := TypeCheck(cfg.Repo, cfg.Pkgs, cfg.Extra)
+		if err != nil {
+			rep.Failed = append(rep.Failed, "typed pre-pass (falling back to the listed field names): "+err.Error())
+		} else {
+			typed = ti
+			if len(ti.Errors) > 0 {
+				rep.Failed = append(rep.Failed, fmt.Sprintf("typed pre-pass: %d type errors, first: %s", len(ti.Errors), ti.Errors[0]))
+			}
+		}
+	}
 	for _, pkg := range cfg.Pkgs {
 		dir := filepath.Join(cfg.Repo, pkg)
 		ents, err := os.ReadDir(dir)
@@ -119,7 +133,7 @@ func Generate(cfg Config) (string, *Report, error) {
 			if x, ok := cfg.Extra[rel]; ok {
 				src = []byte(x)
 			}
-			out, n, err := rewriteFile(rel, src, rep)
+			out, n, err := rewriteFile(rel, src, rep, typed)
 			if err != nil {
 				rep.Failed = append(rep.Failed, rel+": "+err.Error())
 				out = src
@@ -152,7 +166,7 @@ func Generate(cfg Config) (string, *Report, error) {
 	return ovPath, rep, nil
 }
 
-func rewriteFile(rel string, src []byte, rep *Report) ([]byte, int, error) {
+func rewriteFile(rel string, src []byte, rep *Report, typed *TypedInfo) ([]byte, int, error) {
 	fset := token.NewFileSet()
 	f, err := parser.ParseFile(fset, rel, src, parser.ParseComments)
 	if err != nil {
@@ -305,7 +319,7 @@ func rewriteFile(rel string, src []byte, rep *Report) ([]byte, int, error) {
 		})
 	}
 	// 5. access monitoring, scheduling points, spawned goroutines
-	n += instrumentAccesses(f, pkgDir, needImports, rep)
+	n += instrumentAccesses(fset, rel, typed, f, pkgDir, needImports, rep)
 	// add imports
 	for p, name := range needImports {
 		addImport(f, name, p)
@@ -356,13 +370,30 @@ type accessInfo struct {
 	name  string
 	write bool
 	byMap bool
+	// typed marks: guarded evaluation (closure + recover); whole = dereference of a struct pointer (all fields)
+	guarded bool
+	whole   bool
 }
 
 // collectAccesses finds monitored selector expressions in the given nodes (not descending into function literals).
-func collectAccesses(pkgDir string, nodes []ast.Node, writes map[ast.Expr]bool) []accessInfo {
+func collectAccesses(pkgDir string, nodes []ast.Node, writes map[ast.Expr]bool, tm *typedMarks) []accessInfo {
 	fields, idFields := monitoredFields[pkgDir], mapIdentityFields[pkgDir]
 	var out []accessInfo
 	seen := map[string]int{}
+	add := func(e ast.Expr, name string, w, whole bool) {
+		key := types.ExprString(e)
+		if whole {
+			key = "*" + key
+		}
+		if i, dup := seen[key]; dup {
+			if w {
+				out[i].write = true
+			}
+			return
+		}
+		seen[key] = len(out)
+		out = append(out, accessInfo{expr: e, name: name, write: w, guarded: true, whole: whole})
+	}
 	for _, nd := range nodes {
 		if nd == nil {
 			continue
@@ -371,8 +402,28 @@ func collectAccesses(pkgDir string, nodes []ast.Node, writes map[ast.Expr]bool) 
 			if _, ok := x.(*ast.FuncLit); ok {
 				return false
 			}
+			if tm != nil {
+				switch v := x.(type) {
+				case *ast.SelectorExpr:
+					if m, ok := tm.fields[tm.fset.Position(v.End()).Offset]; ok && v.End().IsValid() && !tm.declaredInside(m) {
+						add(v, m.Name, writes[v], false)
+					}
+					if idFields[v.Sel.Name] {
+						break // the map-identity fields keep their own treatment below
+					}
+					return true
+				case *ast.StarExpr:
+					if m, ok := tm.derefs[tm.fset.Position(v.Pos()).Offset]; ok && v.Pos().IsValid() && !tm.declaredInside(m) {
+						add(v.X, m.Name, writes[v], true)
+					}
+					return true
+				}
+			}
 			sel, ok := x.(*ast.SelectorExpr)
 			if !ok {
+				return true
+			}
+			if tm != nil && !idFields[sel.Sel.Name] {
 				return true
 			}
 			byMap := idFields[sel.Sel.Name]
@@ -415,6 +466,8 @@ func writtenSelectors(st ast.Stmt, writes map[ast.Expr]bool) {
 				continue
 			case *ast.SelectorExpr:
 				writes[v] = true
+			case *ast.StarExpr:
+				writes[v] = true
 			}
 			return
 		}
@@ -440,9 +493,38 @@ func writtenSelectors(st ast.Stmt, writes map[ast.Expr]bool) {
 	})
 }
 
+// typedMarks are the marks of one file plus the span of the statement being instrumented.
+type typedMarks struct {
+	fset           *token.FileSet
+	fields, derefs map[int]Mark
+	lo, hi         int
+}
+
+func (t *typedMarks) declaredInside(m Mark) bool {
+	for _, d := range m.Decls {
+		if d >= t.lo && d < t.hi {
+			return true
+		}
+	}
+	return false
+}
+
+func thunk(e ast.Expr) ast.Expr {
+	return &ast.FuncLit{Type: &ast.FuncType{Params: &ast.FieldList{}, Results: &ast.FieldList{List: []*ast.Field{{Type: &ast.InterfaceType{Methods: &ast.FieldList{}}}}}},
+		Body: &ast.BlockStmt{List: []ast.Stmt{&ast.ReturnStmt{Results: []ast.Expr{e}}}}}
+}
+
 func accessStmts(acc []accessInfo) []ast.Stmt {
 	var out []ast.Stmt
 	for _, a := range acc {
+		if a.guarded && a.whole {
+			out = append(out, callCoop("AccessStructF", thunk(a.expr), strLit(a.name), boolLit(a.write)))
+			continue
+		}
+		if a.guarded {
+			out = append(out, callCoop("AccessF", thunk(&ast.UnaryExpr{Op: token.AND, X: a.expr}), strLit(a.name), boolLit(a.write)))
+			continue
+		}
 		if a.byMap {
 			out = append(out, callCoop("AccessMap", a.expr, strLit(a.name), boolLit(a.write)))
 		} else {
@@ -452,9 +534,14 @@ func accessStmts(acc []accessInfo) []ast.Stmt {
 	return out
 }
 
-func instrumentAccesses(f *ast.File, pkgDir string, needImports map[string]string, rep *Report) int {
+func instrumentAccesses(fset *token.FileSet, rel string, typed *TypedInfo, f *ast.File, pkgDir string, needImports map[string]string, rep *Report) int {
 	n := 0
 	hasMon := len(monitoredFields[pkgDir]) > 0 || len(mapIdentityFields[pkgDir]) > 0
+	var tm *typedMarks
+	if typed != nil && typed.Fields[rel] != nil {
+		tm = &typedMarks{fset: fset, fields: typed.Fields[rel], derefs: typed.Derefs[rel]}
+		hasMon = true
+	}
 	var doList func(list []ast.Stmt) []ast.Stmt
 	var doStmt func(st ast.Stmt)
 	headerNodes := func(st ast.Stmt) []ast.Node {
@@ -565,7 +652,10 @@ func instrumentAccesses(f *ast.File, pkgDir string, needImports map[string]strin
 						writtenSelectors(hs, writes)
 					}
 				}
-				acc := collectAccesses(pkgDir, hn, writes)
+				if tm != nil {
+					tm.lo, tm.hi = fset.Position(st.Pos()).Offset, fset.Position(st.End()).Offset
+				}
+				acc := collectAccesses(pkgDir, hn, writes, tm)
 				if len(acc) > 0 {
 					out = append(out, accessStmts(acc)...)
 					needImports[shimCoop] = "vcoop"
